@@ -102,7 +102,11 @@ def classify(run: Run, G, sess, what_prefix=""):
 def correspond(run: Run, name, sessions, metas):
     cases = [s.coq_case() for s in sessions]
     bad = run.vm_bad_indices(name, HEADER, CASE_TYPE, cases, f"(check_case {'true' if FX else 'false'})", shard=150)
-    for i in bad or []:
+    # localise the first disagreeing operation on the shortest disagreeing histories only (each bisection step is a coqc call)
+    todo = sorted(bad or [], key=lambda i: len(sessions[i].records))
+    if len(todo) > 6:
+        run.count("tie", f"{name}: disagreeing histories beyond the 6 shortest (not localised)", len(todo) - 6)
+    for i in todo[:6]:
         s = sessions[i]
         ops = [r[0] for r in s.records]
         # locate the first disagreeing operation by bisection on prefixes
